@@ -1488,6 +1488,10 @@ Qed.
 Theorem compile16_total_flag : parser_recovers_builder_panics = true -> forall a, compile16 a <> VPanic.
 Proof. intros Hr a. unfold compile16. rewrite Hr. apply compile16_total_proved. Qed.
 
+Theorem compile16_never_invalid_flag :
+  parser_checks_view_partition_key = true -> parser_checks_grant_matches = true -> forall a, compile16 a <> VInvalid.
+Proof. intros Hv Hg a. unfold compile16, go_checks. rewrite Hv, Hg. apply compile16_never_invalid_proved. Qed.
+
 Theorem wf_chains_end_proved a : wf a = true -> forall p w, In_ws a p w ->
   (exists l, ws_anc a (fuelw a) (p_name p) (w_inh w) = Some l)
   /\ forall t, In (ITable t) (w_items w) ->
